@@ -279,10 +279,31 @@ class C09(Check):
         if len(ws) < 4:
             raise AnalysisError("scan workers not recognised")
         for f in ws:
+            from ..core import expand_locals, single_defs
+
             rets = [r for r in walk_no_nested(f) if isinstance(r, ast.Return)]
-            ok = len(rets) == 1 and norm(rets[0].value).startswith("res.default(lambda: Simulation.default(model=model, time_points=")
-            tp = norm(rets[0].value).split("time_points=")[-1].rstrip(")") if rets else ""
             params = [a.arg for a in f.args.args + f.args.kwonlyargs]
+            defs = {k: v for k, v in single_defs(f, anywhere=True).items() if isinstance(v, (ast.Lambda, ast.Call)) and k not in params}
+            ok = bool(rets)
+            tp = ""
+            for r in rets:
+                v = r.value
+                # <result>.default(<thunk>) with thunk = lambda: Simulation.default(..) or partial(Simulation.default, ..)
+                if not (isinstance(v, ast.Call) and isinstance(v.func, ast.Attribute) and v.func.attr == "default" and len(v.args) == 1 and not v.keywords):
+                    ok = False
+                    break
+                th = v.args[0]
+                if isinstance(th, ast.Name) and isinstance(defs.get(th.id), (ast.Lambda, ast.Call)):
+                    th = defs[th.id]
+                callee = kws = None
+                if isinstance(th, ast.Lambda) and isinstance(th.body, ast.Call) and not th.body.args:
+                    callee, kws = norm(th.body.func), {k.arg: norm(expand_locals(k.value, {})) for k in th.body.keywords}
+                elif isinstance(th, ast.Call) and norm(th.func).split(".")[-1] == "partial" and len(th.args) == 1:
+                    callee, kws = norm(th.args[0]), {k.arg: norm(k.value) for k in th.keywords}
+                if callee != "Simulation.default" or kws is None or kws.get("model") != "model" or "time_points" not in kws:
+                    ok = False
+                    break
+                tp = kws["time_points"]
             tp_ok = tp in params or tp.startswith("np.array([0.0]") or any(isinstance(s, ast.Assign) and norm(s.targets[0]) == tp for s in f.body)
             if ok and tp_ok:
                 self.holds("P4", SCAN, f.name, "nan-default", rets[0], f"every exit is res.default(NaN Simulation over {tp})")
